@@ -219,6 +219,48 @@ macro_rules! adapter {
                 }
             }
 
+            fn conv_item<'a>(text: &'a [u8], it: Result<pg::ProguardRecord<'a>, pg::ParseError<'a>>) -> NItem<'a> {
+                match it {
+                    Ok(r) => Ok(conv_rec(r)),
+                    Err(e) => {
+                        let l = e.line();
+                        let off = (l.as_ptr() as usize).wrapping_sub(text.as_ptr() as usize);
+                        if off <= text.len() && off + l.len() <= text.len() {
+                            Err(&text[off..off + l.len()])
+                        } else {
+                            Err(&text[0..0])
+                        }
+                    }
+                }
+            }
+
+            /// The same record stream obtained through other `Iterator` entry points:
+            /// `nth(k)` on a fresh iterator, `skip(k)`, `step_by(k)`, `count()`, `last()`.
+            pub fn records_nth(text: &[u8], k: usize) -> Option<NItem<'_>> {
+                pg::ProguardMapping::new(text).iter().nth(k).map(|i| conv_item(text, i))
+            }
+            pub fn records_skip(text: &[u8], k: usize, limit: usize) -> Vec<NItem<'_>> {
+                pg::ProguardMapping::new(text).iter().skip(k).take(limit).map(|i| conv_item(text, i)).collect()
+            }
+            pub fn records_step_by(text: &[u8], k: usize, limit: usize) -> Vec<NItem<'_>> {
+                pg::ProguardMapping::new(text).iter().step_by(k).take(limit).map(|i| conv_item(text, i)).collect()
+            }
+            pub fn records_count_last(text: &[u8]) -> (usize, Option<NItem<'_>>) {
+                let m = pg::ProguardMapping::new(text);
+                (m.iter().count(), m.iter().last().map(|i| conv_item(text, i)))
+            }
+            /// clone of a partially consumed iterator continues like the original
+            pub fn records_clone_midway(text: &[u8], k: usize, limit: usize) -> (Vec<NItem<'_>>, Vec<NItem<'_>>) {
+                let mut it = pg::ProguardMapping::new(text).iter();
+                for _ in 0..k {
+                    if it.next().is_none() {
+                        break;
+                    }
+                }
+                let c = it.clone();
+                (it.take(limit).map(|i| conv_item(text, i)).collect(), c.take(limit).map(|i| conv_item(text, i)).collect())
+            }
+
             pub fn try_parse_line(line: &[u8]) -> Result<NRec<'_>, Vec<u8>> {
                 pg::ProguardRecord::try_parse(line).map(conv_rec).map_err(|e| e.line().to_vec())
             }
